@@ -82,6 +82,8 @@ pub struct LwSpec {
     pub env: LwEnv,
     pub d: usize,
     pub oracles: u32,
+    /// C11: packets submitted from this round on are the probes sent after the fault phase
+    pub probe_round: usize,
 }
 
 pub fn verbose() -> bool { std::env::var("VERIF_TRACE").is_ok() }
@@ -115,7 +117,8 @@ pub fn eval_oracles(spec: &LwSpec, tr: &Trace) -> Vec<Violation> {
     if o & O_C20 != 0 { v.extend(oracle_c20(cfg, si, tr)); }
     if o & O_C06B != 0 { v.extend(crate::c06::oracle_sender_alloc(cfg, si, tr)); }
     if o & O_C04 != 0 { v.extend(oracle_c04_wire(si, tr)); }
-    if o & O_LIVE != 0 { v.extend(oracle_c02_live(si, tr, if o & O_C11 != 0 { "C11.live" } else { "C02.live" })); }
+    if o & O_LIVE != 0 { v.extend(oracle_c02_live(si, tr, "C02.live")); }
+    if o & O_C11 != 0 { v.extend(oracle_c11(si, tr, spec.probe_round)); }
     v
 }
 
@@ -212,7 +215,7 @@ pub const DELTAS_STD: &[u64] = &[20, 0, 150, 2000];
 pub const DELTAS_WIDE: &[u64] = &[20, 0, 1, 150, 2000, 5000];
 
 pub fn env_faulty(dev_rounds: usize, max_rounds: usize) -> LwEnv {
-    LwEnv { fates: FATES_ALL, deltas: DELTAS_STD, dev_rounds, dev_start: 0, max_rounds, skip_choice: true, flush_choice: false, blackouts: &[], stop_when_idle: true, fair_delta: 50, slow_after: usize::MAX, slow_delta: 250, fuel: 2_000_000 }
+    LwEnv { fates: FATES_ALL, deltas: DELTAS_STD, dev_rounds, dev_start: 0, max_rounds, skip_choice: true, flush_choice: false, blackouts: &[], stop_when_idle: true, fair_delta: 50, slow_after: usize::MAX, slow_delta: 250, fuel: 2_000_000, shifts: &[] }
 }
 
 /// Warm start: a Reliable packet on channel 63 at round 0, then the script shifted by `w` rounds,
